@@ -98,6 +98,8 @@ def correspondence(ctx, d, reqs, meta):
         nd = con.dec_model.last
         rj = rows_json(con, nd)        # before the call: le_to_rc zero-pads con.affine.linear in place
         sj = C.prog_json(support)
+        if rj['nz'] > sj['nr']:
+            ctx.count('rc:late-rvar(skipped)'); continue
         with C.quiet():
             out = con.le_to_rc(None if con.support else m.obj_support)
         nc = con.dec_model.last
